@@ -3,9 +3,11 @@
 //! happened. It never judges: expectations live in the TLA+ specification.
 
 mod cli_run;
+mod gen_cmds;
 mod mod_run;
 mod sets;
 mod sink;
+mod typed;
 
 use std::io::{BufRead, BufReader, BufWriter, Write};
 
